@@ -137,12 +137,12 @@ func gen(r *hlib.Rand, n int, tier, profile string, emit func(string, ...any)) {
 			switch r.Intn(20) {
 			case 0:
 				emit("dump")
-			case 1:
-				emit("addrs %s", hx(hlib.Pick(r, peers...)))
+			case 1, 6:
+				emit("addrs %s", hx(hlib.Pick(r, "10.128.0.12", "10.128.0.2", "10.128.0.10", "10.128.0.11", "10.128.0.20", "fd80::20", hlib.Pick(r, peers...))))
 			case 2:
 				emit("learn %s %s", from(), hlib.Pick(r, ap4(r), ap6(r)))
 			case 3:
-				emit("block %s %s", hx(hlib.Pick(r, peers...)), ap4(r))
+				emit("block %s %s", hx(hlib.Pick(r, "10.128.0.12", "10.128.0.2", "10.128.0.10", "10.128.0.11", hlib.Pick(r, peers...))), hlib.Pick(r, ap4(r), "46020202:1000", "46010102:4242"))
 			case 4:
 				emit("delete %s", from())
 			case 5:
